@@ -206,7 +206,7 @@ func (st *calcState) checkTS(ks *kindSpec, t int64) {
 		*cur = fam{valid: true, seg: seg, no: no, fs: fs, fe: fe}
 		st.familyChecks(ks, cur, viol)
 		rep.Outcome(fmt.Sprintf("%s/family=%d/len=%dh", kindName[k], no, (fe-fs+1)/msHour))
-		rep.Count("families_"+kindName[k], 1)
+		rep.Count("family_visits_"+kindName[k], 1)
 	}
 
 	// slot arithmetic: 0 <= t - (start + slot*interval) < interval
